@@ -1,6 +1,7 @@
 (* stdin, one job per line (fields separated by '|'):
      PRESET n maxsup relax | colbeg.. | colend.. | rowind.. | etree.. | colcnt.. | super_bnd..
-   stdout: "M m0 m1 ... mn | OK b"   (map_in_sup of the model, check_slots on it) *)
+   stdout: "M m0 m1 ... mn | OK b"   (map_in_sup of the model, check_slots on it)
+     BUMP next max | num num ...   ->  "B p0 p1 ..." (start of each block) or "B ABORT" *)
 open Alloc_model
 let rec pos_of_int (i : int) : positive =
   if i = 1 then XH else if i land 1 = 0 then XO (pos_of_int (i lsr 1)) else XI (pos_of_int (i lsr 1))
@@ -20,6 +21,14 @@ let () =
              let rlx = relax_snode n et (z_of_int (int_of_string rl)) in
              let (m, _) = preset_map n (ints cb) (ints ce) (ints ri) rlx (ints cc) (ints sb) (z_of_int (int_of_string ms)) in
              Printf.printf "M %s | OK %d\n" (String.concat " " (List.map (fun z -> string_of_int (int_of_z z)) m)) (if check_slots n m then 1 else 0)
+         | _ -> print_endline "ERR")
+    | [hd; reqs] ->
+        (* BUMP next max | num num ... : the locked bump allocator on the request sequence; prints the blocks' starts or ABORT *)
+        (match List.filter (fun t -> t <> "") (String.split_on_char ' ' hd) with
+         | ["BUMP"; nx; mx] ->
+             (match bump_all (z_of_int (int_of_string nx)) (z_of_int (int_of_string mx)) (ints reqs) with
+              | Some l -> Printf.printf "B %s\n" (String.concat " " (List.map (fun (p, _) -> string_of_int (int_of_z p)) l))
+              | None -> print_endline "B ABORT")
          | _ -> print_endline "ERR")
     | _ -> print_endline "ERR"
   done with End_of_file -> ()
